@@ -542,18 +542,14 @@ class AbsoluteDuration(Duration):
             cls, days, seconds, microseconds, milliseconds, minutes, hours, weeks
         )
 
-        # We need to compute the total_seconds() value
-        # on a native timedelta object
-        delta = timedelta(
-            days, seconds, microseconds, milliseconds, minutes, hours, weeks
-        )
+        # Intuitive normalization, in whole microseconds: a float number
+        # of seconds is not exact to the microsecond beyond a few centuries
+        total = _native_microseconds(self)
+        self._total = total / US_PER_SECOND
+        total = abs(total)
 
-        # Intuitive normalization
-        self._total = delta.total_seconds()
-        total = abs(self._total)
-
-        self._microseconds = round(total % 1 * 1e6)
-        days, self._seconds = divmod(int(total), SECONDS_PER_DAY)
+        self._microseconds = total % US_PER_SECOND
+        days, self._seconds = divmod(total // US_PER_SECOND, SECONDS_PER_DAY)
         self._days = abs(days + years * 365 + months * 30)
         self._weeks, self._remaining_days = divmod(days, 7)
         self._months = abs(months)
